@@ -1432,12 +1432,12 @@ def ch_feature_line(f):
     sni = ext("sni", lambda v: "B" if v == "B" else ("L" if not v else ",".join("%d.%s" % (t, k) for t, k in v)))
     psk = ext("psk", lambda v: "%s|%s|%d" % (ol(v[0]), ol(v[1]), 1 if v[2] else 0))
     return ("ch pe=%d cv=%d se=%d ce=%d nc=%d sv=%s sa=%s alpn=%s sni=%s ems=%s ecpf=%s pha=%s pm=%s psk=%s sg=%s ks=%s "
-            "ed=%s hb=%s rsl=%s ct=%s min=%d vers=%s" % (
+            "ed=%s hb=%s rsl=%s ct=%s min=%d max=%d vers=%s" % (
                 f["pe"], f["cv"], f["se"], f["ce"], f["nc"], ext("sv", ol), ext("sa", lambda v: "N" if v is None else str(v)),
                 ext("alpn", lambda v: "L" + ",".join(map(str, v))), sni, ext("ems", lambda v: str(int(v))), ext("ecpf", ol),
                 ext("pha", lambda v: str(int(v))), ext("pm", ol), psk, ext("sg", ol), ext("ks", ol),
                 ext("ed", lambda v: str(int(v))), ext("hb", str), ext("rsl", lambda v: "N" if v is None else str(v)),
-                ext("ct", ol), f["_min"], ",".join(map(str, f["_vers"]))))
+                ext("ct", ol), f["_min"], 0x0304, ",".join(map(str, f["_vers"]))))
 
 
 def gen_ch_features(rng, directed=None):
@@ -2144,7 +2144,7 @@ def sh_correspondence(ctx, J, bases):
     if lc is None:
         return
     msgs = set(norm_msg(m) for m in model_strings())
-    B13 = dict(pe=0, v=771, sv="772", hrr=0, sid=1, co=1, cto=1, cn=1, tack=0, npn=0, ems="-", alpn="-", afo=1, hb="-", rsl="-",
+    B13 = dict(pe=0, v=771, sv="772", al=1, hrr=0, sid=1, co=1, cto=1, cn=1, tack=0, npn=0, ems="-", alpn="-", afo=1, hb="-", rsl="-",
                ks="29", psk="-", cmin=772, cmax=772, cvers="772,771,770,769", rems=0, stack=0, snpn=0, salpn=1, uhb=1, hbcb=0,
                shares="L23,29", pskn="N")
     BPSK = dict(B13, psk="0", pskn="1", salpn=0)
@@ -2177,6 +2177,7 @@ def sh_correspondence(ctx, J, bases):
         E("rsl-ok", [ins(28, "4000")], rsl="16384"),
         E("ems-dup", [ins(23, ""), ins(23, "")], ems="D"),
         E("npn-unsolicited", [ins(13172, "")], npn=0),
+        E("not-aligned", {"op": "append_msg", "data": "08000002" + "0000"}, al=0),
     ]
     casespsk = [
         E("plain", []),
@@ -2193,7 +2194,8 @@ def sh_correspondence(ctx, J, bases):
             continue
         idx = [i for i, (n, ct, data, _) in enumerate(base.msgs["server"]) if n == "handshake:server_hello"][0]
         for name, steps, over in cases:
-            d = {"op": "multi", "steps": steps, "label": "server_hello", "cls": "sh-feature-" + name, "pver": [3, 4]}
+            d = {"op": "multi", "steps": steps, "label": "server_hello", "cls": "sh-feature-" + name, "pver": [3, 4]} \
+                if isinstance(steps, list) else dict(steps, label="server_hello", cls="sh-feature-" + name, pver=[3, 4])
             L, applied, peak = run_handshake_case(base.scn, "server", idx, d, base.ctxm)
             if L is None or applied.get("inapplicable"):
                 ctx.count("sh-inapplicable:" + name)
